@@ -131,6 +131,35 @@ JOHN DOE
 1
 """
 
+ESO_TMPL = """
+        Account Number 11223344
+        Tax Payment Method Sell-to-cover
+        Company Name (Symbol) {company}
+        ({sym})
+
+        Exercise Type: {ex_type} Registration
+
+        Shares Sold {sold}
+
+        Exercise Details
+{grants}
+        Exercise Date:  {date_slash}
+
+        Provided by {company}
+        John Doe
+        Employee ID: 1111
+        STOCK PLAN EXERCISE CONFIRMATION
+        """
+
+ESO_GRANT = """
+        Grant {i}
+        Grant Number {num}
+        Exercise Market Value ${fmv}
+        Shares Exercised {shares}
+        Sale Price ${sale_price}
+        Comission/Fee ${fee}
+"""
+
 PRE_HEAD = """
 
 E*TRADE Securities LLC
@@ -206,7 +235,37 @@ def gen_scenario(rng):
     for bi in range(nb):
         d = d + datetime.timedelta(days=rng.choice([0, 1, 2, 3, 6, 7, 30, 90]))
         sym = rng.choice(syms)
-        kind = rng.choice(["RSU", "RSU", "ESPP"])
+        kind = rng.choice(["RSU", "RSU", "ESPP", "ESO"])
+        if kind == "ESO":
+            # one exercise confirmation with 1-3 grants; only the last grant carries the (same-day) sale
+            ng = rng.randint(1, 3)
+            sold = rng.randint(2, 60)
+            k = rng.choice([1, 1, 2]) if sold >= 2 else 1
+            cuts = sorted(rng.sample(range(1, sold), k - 1)) if k > 1 else []
+            qtys = [b_ - a_ for a_, b_ in zip([0] + cuts, cuts + [sold])]
+            td = d + datetime.timedelta(days=rng.choice([0, 0, 1]))
+            sd = td + datetime.timedelta(days=2)
+            base_price = Fraction(rng.randint(5000, 30000), 100)
+            own = []
+            for q in qtys:
+                price = base_price + Fraction(rng.randint(-300, 300), 100)
+                price = Fraction(int(price * 1000), 1000) if era == "post" else Fraction(int(price * 100), 100)
+                own.append({"sym": sym, "td": td, "sd": sd, "qty": q, "price": price, "comm": Fraction(rng.randint(0, 2500), 100),
+                            "fee": Fraction(rng.randint(1, 40), 100), "for": len(benefits) + ng - 1})
+            tot = sum(t["qty"] * t["price"] for t in own)
+            sale_price = Fraction(int(tot / sold * 100), 100)
+            fees = [Fraction(rng.randint(100, 3000), 100) for _ in range(ng)]
+            doc = "eso%d" % bi
+            for gi in range(ng):
+                last = gi == ng - 1
+                benefits.append({"kind": "ESO", "sym": sym, "date": d, "released": rng.randint(5, 300), "fmv": Fraction(rng.randint(2000, 30000), 100),
+                                 "sold": sold if last else 0, "award": "Option Grant %d" % (award + bi * 10 + gi), "grant_num": award + bi * 10 + gi,
+                                 "fee": sum(fees) if last else Fraction(0), "grant_fee": fees[gi], "sale_price": sale_price, "doc": doc,
+                                 "ex_type": rng.choice(["Same-Day Sale", "Sell to Cover"]) if gi == 0 else None})
+            for b_ in benefits[-ng:]:
+                b_["ex_type"] = benefits[-ng]["ex_type"]
+            trades += own
+            continue
         released = rng.randint(5, 200)
         fmv = Fraction(rng.randint(2000, 30000), 100)
         sold = rng.randint(1, max(1, released // 2)) if (kind == "RSU" or rng.random() < 0.7) else 0
@@ -272,8 +331,20 @@ def gen_scenario(rng):
 def render_files(rng, sc):
     files = []
     names = []
+    done_docs = set()
     for bi, b in enumerate(sc["benefits"]):
         dd = b["date"].strftime("%m-%d-%Y")
+        if b["kind"] == "ESO":
+            if b["doc"] in done_docs:
+                continue
+            done_docs.add(b["doc"])
+            gs = [x for x in sc["benefits"] if x.get("doc") == b["doc"]]
+            grants = "".join(ESO_GRANT.format(i=i + 1, num=g["grant_num"], fmv=money2(g["fmv"]), shares=g["released"], sale_price=money2(g["sale_price"]),
+                                              fee=fee2(g["grant_fee"])) for i, g in enumerate(gs))
+            text = ESO_TMPL.format(company=COMPANY[b["sym"]].replace(",", ""), sym=b["sym"], ex_type=b["ex_type"], sold="{:,}".format(gs[-1]["sold"]),
+                                   grants=grants, date_slash=b["date"].strftime("%m/%d/%Y"))
+            files.append(("benefit_%d" % bi, text))
+            continue
         if b["kind"] == "RSU":
             text = RSU_TMPL.format(company=COMPANY[b["sym"]], sym=b["sym"], award=b["award"], date_dash=dd, released=f4(b["released"]),
                                    fmv=f6(b["fmv"]), sale_price=f6(b["sale_price"] or b["fmv"]), market_value=money2(b["fmv"] * b["released"]),
@@ -430,7 +501,7 @@ def judge(sc, res):
         for ri, r in enumerate(rows_left):
             if r["security"] != b["sym"] or Fraction(r["shares"]) != b["sold"]:
                 continue
-            note = ("RSU " + b["award"]) if b["kind"] == "RSU" else "ESPP"
+            note = ("RSU " + b["award"]) if b["kind"] == "RSU" else ("ESPP" if b["kind"] == "ESPP" else b["award"])
             if note not in r["memo"]:
                 continue
             if Fraction(r["amount/share"]) != b["sale_price"] or Fraction(r["commission"]) != b["fee"]:
